@@ -232,7 +232,12 @@ pub fn shard_run(tier: &str, seed: u64, replay_case: Option<usize>, shard: Shard
             let mut reqs_flat: Vec<(usize, Req)> = vec![];
             // resolve and execute op by op (the runner API runs whole histories, so re-implement the
             // minimal loop here: resolve -> image -> execute -> observe)
-            let ops = h.ops.clone();
+            let mut ops = h.ops.clone();
+            if hi % 5 == 2 {
+                // one snapshot of more than a megabyte at the end (size classes may be treated differently)
+                ops.push(crate::ops::Op { client: 0, kind: OpKind::AddVersion { parent: crate::ops::IdRef::Latest(0), pay: crate::ops::PaySpec::new(40, 9, h.seed ^ 0xB1) } });
+                ops.push(crate::ops::Op { client: 0, kind: OpKind::AddSnapshot { vid: crate::ops::IdRef::Latest(0), pay: crate::ops::PaySpec::new(1_600_000 + hi * 7, 9, h.seed ^ 0xB16) } });
+            }
             let mut chains: Vec<Vec<(Uuid, Uuid)>> = vec![vec![]; h.n_clients];
             let mut snaps: Vec<Option<Uuid>> = vec![None; h.n_clients];
             for (oi, op) in ops.iter().enumerate() {
